@@ -258,6 +258,16 @@ pub fn run(ctx: &Ctx, evidence: Option<&PathBuf>) -> i32 {
             c.l.sample(Json::obj().with("call", format!("simple_redirect({loc:?})")).with("output", String::from_utf8_lossy(&expect).into_owned()));
         }
     });
+    // ---- every location length 0..=700 (fast paths tend to hinge on a length threshold) ----------
+    ctx.run_fixed("redirect-lengths", if ctx.miri() { 3 } else { 701 }, |c| {
+        let len = if c.ctx.miri() { [0usize, 246, 300][c.index as usize] } else { c.index as usize };
+        let loc: String = (0..len).map(|i| (b'a' + (i % 26) as u8) as char).collect();
+        let expect = model_redirect(&loc);
+        if check_call(c, &Call::Redirect(&loc), &expect, &format!("simple_redirect(<{len} bytes>)"), len % 16 == 0 || (240..=260).contains(&len)) {
+            c.l.count("redirect_lengths");
+            c.l.sig(0x7e9 ^ ((len as u64) << 12));
+        }
+    });
     // ---- http::Response wrapper ----------------------------------------------------------------------
     let n = ctx.size(3_000, 100_000);
     ctx.run_cases("http-response", n, |c| {
@@ -304,6 +314,7 @@ pub fn run(ctx: &Ctx, evidence: Option<&PathBuf>) -> i32 {
     ctx.gate("canonical_reason_codes", 30);
     ctx.gate("custom_reason_codes", 30);
     ctx.gate("bounded_errors", 1000);
+    ctx.gate("redirect_lengths", 701);
     ctx.extra("exhaustive_subspaces", "status codes 100..=999; destination capacities 0..=L+1 for every produced output");
     ctx.finish(
         "exploration",
